@@ -312,9 +312,15 @@ theorem expr_call (f : Nat) (fn : String) (args : Exprs) (st : St Ω) (h : (fn =
           else if fn == "fmt.Errorf" then
             (errorf vs).map fun r => ([r], st1)
           else
-            match W.call fn vs st1.heap st1.w with
-            | some (rs, h, w) => some (rs, { st1 with heap := h, w := w })
-            | none => none := by
+            match st.env.get fn with
+            | some fv =>
+              (match W.callVar fn fv vs st1.heap st1.w with
+               | some (rs, h, w) => some (rs, { st1 with heap := h, w := w })
+               | none => none)
+            | none =>
+              match W.call fn vs st1.heap st1.w with
+              | some (rs, h, w) => some (rs, { st1 with heap := h, w := w })
+              | none => none := by
   have h0 : evalExpr W (f + 1) (.call fn args) st = (if fn == "make" then _ else _) := rfl
   rw [h0, h]; rfl
 theorem expr_mcall (f : Nat) (recv : Expr) (m : String) (args : Exprs) (st : St Ω) :
